@@ -865,6 +865,10 @@ func (c *CertificateContext) Sign(alg SignatureAlgorithm) (*Certificate, error) 
 		out.TBSCertificate.SignatureAlgorithm = pkix.AlgorithmIdentifier{
 			Algorithm: sigAlgOids[alg],
 		}
+		//RFC 3279/4055: the parameters of RSA PKCS#1 v1.5 signatures are NULL
+		if alg <= RSAwithSHA512 {
+			out.TBSCertificate.SignatureAlgorithm.Parameters = asn1.NullRawValue
+		}
 	}
 	out.TBSCertificate.Issuer = c.Issuer.IssuerDn
 
@@ -893,6 +897,10 @@ func (c *CertificateContext) Sign(alg SignatureAlgorithm) (*Certificate, error) 
 	hashAlgId, hashAlg, out.SignatureAlgorithm.Algorithm, wantKey, err = resolveAlg(alg)
 	if err != nil {
 		return nil, err
+	}
+
+	if wantKey == rsaKey {
+		out.SignatureAlgorithm.Parameters = asn1.NullRawValue
 	}
 
 	hashAlg.Write(b)
